@@ -1,9 +1,9 @@
 import Driver.Proto
-namespace Driver
+namespace Driver.C03
 open Scrapli
 
 /-- line-protocol handler for property C03 (arguments after the leading `c03` token) -/
 def handleC03 : List String → String
   | _ => "bad-op"
 
-end Driver
+end Driver.C03
